@@ -86,8 +86,9 @@ class Environment:
         if temperature is not None and not (0.0 < temperature <= 1000.0):
             raise ValueError("'temperature' must be between 0.0 and 1000.0.")
 
-        if isinstance(wavelength, int | float) and not (wavelength > 0.0):
-            raise ValueError("'wavelength' must be strictly positive.")
+        if wavelength is not None and not isinstance(wavelength, WavelengthHandling):
+            if not (wavelength > 0.0):
+                raise ValueError("'wavelength' must be strictly positive.")
 
         self._temperature: float | None = (
             float(temperature) if temperature is not None else None
